@@ -88,6 +88,15 @@ class T(ast.NodeTransformer):
             return ast.copy_location(ast.Call(func=_rt("not_"), args=[node.operand], keywords=[]), node)
         return node
 
+    # ---- loads of self.<attr> (switch points for the C14 scheduler; reads of shared scratch state)
+    def visit_Attribute(self, node):
+        self.generic_visit(node)
+        if isinstance(node.ctx, ast.Load) and isinstance(node.value, ast.Name) and node.value.id == "self" and self.qual:
+            return ast.copy_location(
+                ast.Call(func=_rt("getattr_"), args=[node.value, ast.Constant(value=node.attr)], keywords=[]), node
+            )
+        return node
+
     # ---- iteration (set order is a fork point; everything else passes through)
     def visit_For(self, node):
         self.generic_visit(node)
